@@ -79,6 +79,9 @@ class Vector(MutableSequence[TScalar]):
         Returns:
             A vector data object.
         """
+        # Materialize the iterable once so that one-shot iterators (generators, iter(...)) are not
+        # consumed by validation before they are stored.
+        values = list(values)
         if not values:
             if not value_type:
                 raise TypeError("You must specify values as non-empty or specify value_type.")
@@ -99,7 +102,7 @@ class Vector(MutableSequence[TScalar]):
         if not isinstance(units, str):
             raise invalid_arg_type("units", "str", units)
 
-        self._values = list(values)
+        self._values = values
         if copy_extended_properties or not isinstance(
             extended_properties, ExtendedPropertyDictionary
         ):
@@ -179,6 +182,9 @@ class Vector(MutableSequence[TScalar]):
             elif isinstance(value, str):  # Narrow the type to exclude string.
                 raise TypeError("You cannot assign a string to Vector slice.")
             else:
+                # Materialize the iterable once so that validating a one-shot iterator does not
+                # consume the items before they are assigned.
+                value = list(value)
                 # Assigning an empty Iterable to a slice is valid, so we don't check for empty.
                 # If an empty Iterable is assigned to a slice, that slice is deleted.
                 for subval in value:
